@@ -28,6 +28,7 @@ func rulesC11(c *Ctx) {
 		"C11 (a round finalizes only with unanimity or backup majority) — decided: (a) in the roothash transaction handler a commitment is added to the pool only after VerifyExecutorCommitment's success edge on the same commitment, and a verification or admission failure can never reach the state update/commit (the whole transaction is rejected); the pool's Add is called only from the handler and the worker's own mirror; votes and the scheduler commitment are stored only inside SchedulerCommitment.Add, only after the one-vote-per-node guard; (b) admission guards (member / backup-worker by discrepancy mode, scheduler rank known, not worse than the highest rank, equal rank during resolution) dominate every admission; only worker-role members obtain a scheduler rank; (c) every success exit of the vote tally passes, at its single post-loop evaluation: in detection mode 'at most one distinct vote', 'failures within the straggler allowance', 'required votes reached'; in resolution mode 'best vote count reaches total/2+1' and 'winning hash equals the scheduler commitment's vote'; votes are read only by committee-member key; (d) a Normal block is produced only from a nil-error ProcessCommitments result, with the header of that result; every other outcome fails the round, waits, or returns the error.",
 		"NOT decided: the arithmetic of the thresholds themselves (that total/required are computed from the right member subsets), straggler/liveness accounting, timeout scheduling — values, not shapes.")
 	ix := c.P.BuildIndex()
+	c11Round3(c)
 	normalK, okK := c.ConstInt("roothash/api/block", "Normal")
 	if !okK {
 		c.Undecided("C11.outcome", "anchor:block.Normal", "", "constant roothash/api/block.Normal not found")
